@@ -11,25 +11,7 @@ Core Lean only.
 import Pko.Model.Phase
 
 namespace Pko.Model.ObjectSet
-open Pko.Kube Pko.Model.Phase
-
-/-- A status condition, as far as the modelled code and the properties look at it. -/
-structure Cond where
-  type : String
-  status : String      -- "True" | "False" | "Unknown"
-  reason : String
-  obsGen : Nat
-  msg : String         -- only meaningful for Available=False/ProbeFailure: the failing phase's name
-  deriving DecidableEq, Repr, Inhabited
-
-/-- `meta.SetStatusCondition`: update in place or append. -/
-def setCond (cs : List Cond) (c : Cond) : List Cond :=
-  if cs.any (·.type = c.type) then cs.map fun x => if x.type = c.type then c else x
-  else cs ++ [c]
-
-def removeCond (cs : List Cond) (t : String) : List Cond := cs.filter (·.type ≠ t)
-def condTrue (cs : List Cond) (t : String) : Bool := cs.any fun c => c.type = t && c.status = "True"
-def findCond (cs : List Cond) (t : String) : Option Cond := cs.find? (·.type = t)
+open Pko.Kube Pko.Model.Phase Pko.Model.Status
 
 inductive Lifecycle where
   | active | paused | archived
@@ -39,13 +21,6 @@ structure PhaseSpec where
   name : String
   cls : String              -- "" = reconciled in-process, otherwise delegated to an ObjectSetPhase
   objs : List PObj
-  deriving DecidableEq, Repr, Inhabited
-
-/-- `ControlledObjectReference` -/
-structure CRef where
-  kind : String
-  ns : String
-  name : String
   deriving DecidableEq, Repr, Inhabited
 
 /-- The ObjectSet / ClusterObjectSet API object. -/
